@@ -15,6 +15,10 @@ CLAIMS = {
  'C12': dict(category='proof',
    text='Guards: every operation of unique_lock, shared_lock and the QS lock_guard (construct locked/deferred/adopted, lock, unlock, move-construct, assign incl. same-mutex, swap, destroy from every ownership state) proved against counting-mutex contracts: an owning guard accounts for exactly one acquisition, release goes through the matching call exactly once, transfers leave the mutex counters untouched (class P, loop-free). Spinlocks: thread-modular rely/guarantee contracts: lock() returns only after an acquire-ordered observation of its own ticket / of an exchange that read false, unlock() is a release store by the holder handing over to exactly the next ticket; the environment may act arbitrarily within the stated rely at every atomic access (class P under the rely).',
    note='Trusted: clang AST + frg2c lowering, CBMC DFCC + SAT; mutex stub only counts calls; rely conditions of the spinlock proofs (other threads only take tickets / only the holder advances serving_ticket_; RMW atomicity) and release/acquire message passing are assumed, not checked; no interleavings are explored; eventual acquisition (fairness) not decided.'),
+
+ 'C15': dict(category='proof',
+   text='string_view: operator==, find_first, find_first_of, find_last, sub_string (incl. that the bounds assertion rejects every out-of-range and wrapping (from,size)), starts_with/ends_with, to_number<int|unsigned|long|unsigned long>, hash and generic_strlen proved with loop contracts for every content and every length up to the 4096-byte object bound, on exact-size buffers, with first/last-occurrence and equality facts stated through ghost indices (class P). Owned strings: construction from C strings / (ptr,len) / views / fill, copy, assignment, resize, +, +=, push_back, compare/==, view conversion checked for all strings of length <= 6 over the full byte alphabet incl. the data()[size()]==0 invariant, exact allocation size and no leak (class B).',
+   note='Trusted: clang AST + frg2c lowering, CBMC DFCC + SAT, allocator stub = CBMC allocation model. Char = char only; views with a null data pointer are left out (CBMC flags nullptr+0). to_number value equation and owned-string content equality are bounded (class B), not proved for all lengths.'),
 }
 _ALL = ['C%02d' % i for i in range(1, 21)]
 NOT_APPLICABLE = {p: 'check not built yet in this session (planned, see DESIGN.md section 7); not a statement about the technique' for p in _ALL if p not in CLAIMS}
